@@ -54,57 +54,58 @@ theorem mem_sRangeStep_one (lo hi x : Int) : x ∈ sRangeStep lo hi 1 ↔ lo ≤
 
 /-! ## sum_rect -/
 
-/-- **exact characterisation**: the four reads of `sum_rect` are inside the `n0 x n1` integral image iff the image is
-    not empty, the window does not start beyond it (`y0 ≤ N0`, `x0 ≤ N1`) and does not end before it (`1 ≤ y1`, `1 ≤ x1`). -/
-theorem sumRect_ok_iff (n0 n1 y0 x0 y1 x1 : Int) :
-    (∀ a ∈ sumRectAccesses n0 n1 y0 x0 y1 x1, SOk a) ↔
+/-- **repaired `sum_rect` (6faa5ae)**: all four corners are clamped into the image and an empty image is not read:
+    for ALL integers the reads are inside the `n0 x n1` integral image. -/
+theorem sumRect_ok (n0 n1 y0 x0 y1 x1 : Int) : ∀ a ∈ sumRectAccesses n0 n1 y0 x0 y1 x1, SOk a := by
+  unfold sumRectAccesses
+  split
+  · simp
+  · simp only [at2, SOk, List.cons_append, List.nil_append, List.mem_cons,
+      List.not_mem_nil, or_false, forall_eq_or_imp, forall_eq]
+    omega
+
+/-- an empty image performs no access; a non-empty one exactly the four reads (8 coordinates) -/
+theorem sumRect_length (n0 n1 y0 x0 y1 x1 : Int) :
+    (sumRectAccesses n0 n1 y0 x0 y1 x1).length = if n0 ≤ 0 ∨ n1 ≤ 0 then 0 else 8 := by
+  unfold sumRectAccesses
+  split <;> simp [at2]
+
+theorem sumRectEntry_ok (n0 n1 y0 x0 y1 x1 : Int) : ∀ a ∈ sumRectEntry n0 n1 y0 x0 y1 x1, SOk a := by
+  unfold sumRectEntry
+  split
+  · simp
+  · simp only [at2, SOk, List.cons_append, List.nil_append, List.mem_cons,
+      List.not_mem_nil, or_false, forall_eq_or_imp, forall_eq]
+    generalize wrap32 (y0 - 1) = a
+    generalize wrap32 (x0 - 1) = b
+    generalize wrap32 (y1 - 1) = c
+    generalize wrap32 (x1 - 1) = d
+    omega
+
+/-- the clamps of the PINNED tree: exact characterisation (one-sided clamps) -/
+theorem sumRectPinned_ok_iff (n0 n1 y0 x0 y1 x1 : Int) :
+    (∀ a ∈ sumRectPinnedAccesses n0 n1 y0 x0 y1 x1, SOk a) ↔
       1 ≤ n0 ∧ 1 ≤ n1 ∧ y0 ≤ n0 ∧ x0 ≤ n1 ∧ 1 ≤ y1 ∧ 1 ≤ x1 := by
-  simp only [sumRectAccesses, at2, SOk, List.cons_append, List.nil_append, List.mem_cons,
+  simp only [sumRectPinnedAccesses, at2, SOk, List.cons_append, List.nil_append, List.mem_cons,
     List.not_mem_nil, or_false, forall_eq_or_imp, forall_eq]
   omega
 
-theorem sumRectEntry_ok_iff (n0 n1 y0 x0 y1 x1 : Int)
-    (hn0 : n0 ≤ 2147483647) (hn1 : n1 ≤ 2147483647)
-    (hy0 : -2147483648 ≤ y0 ∧ y0 ≤ 2147483647) (hx0 : -2147483648 ≤ x0 ∧ x0 ≤ 2147483647)
-    (hy1 : -2147483648 ≤ y1 ∧ y1 ≤ 2147483647) (hx1 : -2147483648 ≤ x1 ∧ x1 ≤ 2147483647) :
-    (∀ a ∈ sumRectEntry n0 n1 y0 x0 y1 x1, SOk a) ↔
-      1 ≤ n0 ∧ 1 ≤ n1 ∧ (y0 ≤ n0 ∧ y0 ≠ -2147483648) ∧ (x0 ≤ n1 ∧ x0 ≠ -2147483648) ∧
-      (1 ≤ y1 ∨ y1 = -2147483648) ∧ (1 ≤ x1 ∨ x1 = -2147483648) := by
-  simp only [sumRectEntry, wrap32, at2, SOk, List.cons_append, List.nil_append, List.mem_cons,
-    List.not_mem_nil, or_false, forall_eq_or_imp, forall_eq]
-  omega
-
-theorem csumRect_ok_iff (n0 n1 y x dy dx h w : Int) :
-    (∀ a ∈ csumRectAccesses n0 n1 y x dy dx h w, SOk a) ↔
-      1 ≤ n0 ∧ 1 ≤ n1 ∧ y + dy - Int.tdiv h 2 ≤ n0 ∧ x + dx - Int.tdiv w 2 ≤ n1 ∧
-      1 ≤ y + dy - Int.tdiv h 2 + h ∧ 1 ≤ x + dx - Int.tdiv w 2 + w := by
+theorem csumRect_ok (n0 n1 y x dy dx h w : Int) : ∀ a ∈ csumRectAccesses n0 n1 y x dy dx h w, SOk a := by
   simp only [csumRectAccesses]
-  exact sumRect_ok_iff _ _ _ _ _ _
+  exact sumRect_ok _ _ _ _ _ _
 
-/-- `haar_x` followed by `haar_y` at `(y, x, w)` -/
-theorem haar_ok_iff (n0 n1 y x w : Int) :
-    (∀ a ∈ haarAccesses n0 n1 y x w, SOk a) ↔
-      1 ≤ y ∧ y ≤ n0 ∧ 1 ≤ x ∧ x ≤ n1 ∧
-      y - Int.tdiv w 2 ≤ n0 ∧ 1 ≤ y - Int.tdiv w 2 + w ∧ x - Int.tdiv w 2 ≤ n1 ∧ 1 ≤ x - Int.tdiv w 2 + w := by
-  simp only [haarAccesses, haarXAccesses, haarYAccesses, List.mem_append, or_imp, forall_and,
-    sumRect_ok_iff]
-  generalize Int.tdiv w 2 = h
-  omega
+/-- `haar_x` followed by `haar_y` at `(y, x, w)`: in bounds for all integers -/
+theorem haar_ok (n0 n1 y x w : Int) : ∀ a ∈ haarAccesses n0 n1 y x w, SOk a := by
+  intro a ha
+  simp only [haarAccesses, haarXAccesses, haarYAccesses, List.mem_append] at ha
+  rcases ha with (ha | ha) | (ha | ha) <;> exact sumRect_ok _ _ _ _ _ _ a ha
 
-theorem haar_ok (n0 n1 y x w : Int) (hy : 1 ≤ y ∧ y ≤ n0) (hx : 1 ≤ x ∧ x ≤ n1) (hw : 0 ≤ w) :
-    ∀ a ∈ haarAccesses n0 n1 y x w, SOk a := by
-  rw [haar_ok_iff]
-  have e : Int.tdiv w 2 = w / 2 := Int.tdiv_eq_ediv_of_nonneg hw
-  rw [e]
-  omega
-
-theorem descWindow_ok (n0 n1 : Int) (pts : List (Int × Int)) (w : Int) (hw : 0 ≤ w)
-    (hp : ∀ p ∈ pts, (1 ≤ p.1 ∧ p.1 ≤ n0) ∧ (1 ≤ p.2 ∧ p.2 ≤ n1)) :
+theorem descWindow_ok (n0 n1 : Int) (pts : List (Int × Int)) (w : Int) :
     ∀ a ∈ descWindowAccesses n0 n1 pts w, SOk a := by
   intro a ha
   simp only [descWindowAccesses, List.mem_flatMap] at ha
-  rcases ha with ⟨p, hpm, ha⟩
-  exact haar_ok n0 n1 p.1 p.2 w (hp p hpm).1 (hp p hpm).2 hw a ha
+  rcases ha with ⟨p, _, ha⟩
+  exact haar_ok n0 n1 p.1 p.2 w a ha
 
 /-! ## build_pyramid -/
 
@@ -122,14 +123,12 @@ theorem pow2_mono {a b : Nat} (h : a ≤ b) : pow2 a ≤ pow2 b := by
   | refl => exact le_refl _
   | step _ ih => rw [pow2_succ]; have := pow2_pos a; omega
 
-/-- the eight windows of one sample: inside for every lobe size `l ≥ 1` as soon as `2 ≤ y ≤ N0-1`, `2 ≤ x ≤ N1-1` -/
-theorem pyramidSampleReads_ok (n0 n1 y x l : Int) (hl : 1 ≤ l) (hy : 2 ≤ y ∧ y < n0) (hx : 2 ≤ x ∧ x < n1) :
+/-- the eight windows of one sample: inside for every position and lobe size (the repaired clamps of `sum_rect`) -/
+theorem pyramidSampleReads_ok (n0 n1 y x l : Int) :
     ∀ a ∈ pyramidSampleReads n0 n1 y x l, SOk a := by
-  have e1 : Int.tdiv (2 * l - 1) 2 = (2 * l - 1) / 2 := Int.tdiv_eq_ediv_of_nonneg (by omega)
-  have e2 : Int.tdiv (3 * l) 2 = (3 * l) / 2 := Int.tdiv_eq_ediv_of_nonneg (by omega)
-  have e3 : Int.tdiv l 2 = l / 2 := Int.tdiv_eq_ediv_of_nonneg (by omega)
-  simp only [pyramidSampleReads, List.mem_append, or_imp, forall_and, csumRect_ok_iff, e1, e2, e3]
-  omega
+  intro a ha
+  simp only [pyramidSampleReads, List.mem_append] at ha
+  rcases ha with ((((((ha | ha) | ha) | ha) | ha) | ha) | ha) | ha <;> exact csumRect_ok _ _ _ _ _ _ _ _ a ha
 
 theorem tdiv_step_range (n y step border : Int) (hs : 1 ≤ step) (hb : step ≤ border)
     (hy : border ≤ y ∧ y < n - border) :
@@ -168,7 +167,7 @@ theorem pyramidOctave_ok (n0 n1 nint init : Int) (o : Nat) (hi : 1 ≤ init) :
   have hy' := mem_sRangeStep _ _ _ _ hy
   have hx' := mem_sRangeStep _ _ _ _ hx
   rcases ha with ha | ha
-  · exact pyramidSampleReads_ok n0 n1 y x _ (lobeSize_ge o i hir.1) (by omega) (by omega) a ha
+  · exact pyramidSampleReads_ok n0 n1 y x _ a ha
   · have ry := tdiv_step_range n0 y _ _ hstep hborder.1 ⟨hy'.2.1, hy'.2.2.1⟩
     have rx := tdiv_step_range n1 x _ _ hstep hborder.1 ⟨hx'.2.1, hx'.2.2.1⟩
     simp only [pyramidWrite, pyramidDims, at3, List.mem_cons, List.not_mem_nil, or_false] at ha
